@@ -1,6 +1,7 @@
 package ws
 
 import (
+	"bytes"
 	"encoding/binary"
 	"fmt"
 	"io"
@@ -99,13 +100,31 @@ func ReadFrame(r io.Reader) (f Frame, err error) {
 	}
 
 	if f.Header.Length > 0 {
-		// int(f.Header.Length) is safe here cause we have
-		// checked it for overflow above in ReadHeader.
-		f.Payload = make([]byte, int(f.Header.Length))
-		_, err = io.ReadFull(r, f.Payload)
+		f.Payload, err = readPayload(r, f.Header.Length)
 	}
 
 	return f, err
+}
+
+// maxPayloadPrealloc limits the memory allocated on the strength of a length
+// announced in a frame header alone.
+const maxPayloadPrealloc = 64 * 1024
+
+// readPayload reads exactly n bytes from r. The announced length n is not
+// trusted: the buffer grows as the bytes arrive, so that a header with a huge
+// length can neither make us allocate that much memory nor panic trying to.
+func readPayload(r io.Reader, n int64) ([]byte, error) {
+	var buf bytes.Buffer
+	if n < maxPayloadPrealloc {
+		buf.Grow(int(n) + bytes.MinRead)
+	} else {
+		buf.Grow(maxPayloadPrealloc)
+	}
+	m, err := io.CopyN(&buf, r, n)
+	if err == io.EOF && m > 0 {
+		err = io.ErrUnexpectedEOF
+	}
+	return buf.Bytes(), err
 }
 
 // MustReadFrame is like ReadFrame but panics if frame can not be read.
